@@ -93,6 +93,9 @@ func switchToParentThread(L *LState, nargs int, haserror bool, kill bool) {
 		}
 	}
 	L.XMoveTo(parent, nargs)
+	if !kill && !haserror {
+		L.yieldNRet = L.currentFrame.NRet
+	}
 	L.stack.Pop()
 	offset := L.currentFrame.LocalBase - L.currentFrame.ReturnBase
 	L.currentFrame = L.stack.Last()
@@ -111,6 +114,7 @@ func callGFunction(L *LState, tailcall bool) bool {
 			// and yield like an ordinary call; the OP_RETURN that follows OP_TAILCALL then
 			// returns the values passed to the next resume
 			frame.ReturnBase = frame.Base
+			frame.NRet = MultRet
 		} else {
 			L.currentFrame = L.RemoveCallerFrame()
 		}
